@@ -37,7 +37,7 @@ RULE = ("histories of operations on caller-owned objects: decorator objects (22 
         "auto_attribs, on_setattr given as NO_OP / hook / list, slots, these=), attr.ib() objects, "
         "these / make_class attrs / class_body dicts, metadata dicts, validator / converter / hook "
         "lists; definitions = applying a decorator object to a freshly exec'ed class body from a "
-        "catalogue of 53 bodies (plain, annotated-only, mixed unannotated (auto_attribs fallback), own "
+        "catalogue of 58 bodies (plain, annotated-only, mixed unannotated (auto_attribs fallback), own "
         "__hash__/__eq__/__setattr__/__init__, pre/post-init hooks, frozen / hooked / plain / post-init "
         "/ exception bases, converters, validators, field-level hooks, kw_only fields, bad default "
         "order, ClassVar, init=False, metadata, converter WRAPPER closures of one def each - converter "
@@ -45,14 +45,19 @@ RULE = ("histories of operations on caller-owned objects: decorator objects (22 
         "members are annotated differently or not at all -, string annotations, class-object "
         "annotations, subclasses of bases with string annotations, eq keys built by cmp_using() calls "
         "with the SAME function objects / class_name differing in require_same_type, validator / "
-        "converter / hook TUPLES) or make_class; and CLASS "
+        "converter / hook TUPLES, fields with type= (also clashing with an annotation), validator / "
+        "converter / hook members that are callable OBJECTS with value equality (equal but distinct "
+        "across classes, identity-tagged trace)) or make_class; and CLASS "
         "OPERATIONS on classes that exist already (attrs.resolve_types; fields/fields_dict/has; "
         "Attribute.evolve; construct+validate+asdict) as history steps between and after definitions. Generated: ALL ordered pairs (A,B) of "
         "bodies under one shared decorator object (quick: 32 sampled bodies for define(), 13 sampled of a "
         "20-body core for 11 decorators, 6 sampled bodies for the rest; thorough: full catalogue for 12 decorators, 24 sampled bodies for the other 10), sampled "
         "histories of 3-5 bodies under one decorator, shared `these` dict (one or two decorator "
         "objects, dict / attr.ib mutated in between), make_class with shared attrs dict holding the "
-        "three hook names and shared class_body dict (mutated in between, mixed with attr.s(these=)), "
+        "three hook names, attr.ib()s with type=, and shared class_body dict holding a NESTED "
+        "__annotations__ dict (mutated in between, mixed with attr.s(these=) and class operations), "
+        "class- and field-level on_setattr lists/tuples of equal-but-distinct callable objects over "
+        "two decorator objects / make_class calls, "
         "one attr.ib() object placed in several bodies under different decorators, shared metadata "
         "dict handed over as the dict itself / a MappingProxyType over it / another live Mapping view, "
         "and validator/converter/hook lists, mutated (keys set and deleted, members appended and "
@@ -71,7 +76,7 @@ RULE = ("histories of operations on caller-owned objects: decorator objects (22 
         "class the generated == on two instances built from 1 and from 1.0; per field which converters produced the "
         "value stored by __init__ (converters tag their result); what fires on `inst.f = v` per field or "
         "FrozenInstanceError) == fingerprint alone == model prediction, and container contents at "
-        "the end == what the caller put there, and no Attribute OBJECT is shared between the "
+        "the end == what the caller put there (nested dicts compared deeply), and no Attribute OBJECT is shared between the "
         "__attrs_attrs__ of two classes (catalogue bases included). distinct = distinct history; non-trivial = at least "
         "two definitions")
 EXTRA_TRUSTED = [
@@ -84,7 +89,7 @@ EXTRA_TRUSTED = [
 ]
 ASSUMPTIONS = [
     "single-level inheritance from one of the catalogue bases; field names without leading "
-    "underscore; no field_transformer, no type= argument, no cmp=; validator/converter lists are "
+    "underscore; no field_transformer, no cmp=, no cached_property in class bodies; validator/converter lists are "
     "non-empty when handed to attr.ib (an empty list is kept as-is by attrib() and is not callable)",
     "the global validator switch is on while fingerprints are taken; linecache entries are not part "
     "of the fingerprint (C17)",
@@ -127,10 +132,51 @@ class Money:
 
 VALS = {n: _mk_validator(n) for n in ("v1", "v2", "v3", "vb")}
 CONVS = {n: _mk_converter(n) for n in ("c1", "c2", "c3")}
+
+
+class EqCallable:
+    """A callable OBJECT with value equality (by channel) that is behaviourally distinguishable
+    (the tag it logs): two equal-but-distinct ones must never be confused by attrs."""
+
+    def __init__(self, channel, tag, kind):
+        self.channel, self.tag, self.kind = channel, tag, kind
+
+    def __eq__(self, other):
+        return isinstance(other, EqCallable) and (self.channel, self.kind) == (other.channel, other.kind)
+
+    def __hash__(self):
+        return hash((self.channel, self.kind))
+
+    def __call__(self, *args):
+        LOG.append(self.tag)
+        if self.kind == "conv":
+            return (self.tag, args[0])
+        if self.kind == "hook":
+            return args[2]
+        return None
+
+
+VALS.update(va1=EqCallable("a", "va1", "val"), va2=EqCallable("a", "va2", "val"))
+CONVS.update(ca1=EqCallable("a", "ca1", "conv"), ca2=EqCallable("a", "ca2", "conv"))
 # closures of ONE def (same code object), individually annotated: the model's `conv_ann` table
 CONVS["c1"].__annotations__ = {"value": str}
 CONVS["c3"].__annotations__ = {"value": int}
 TYPE_NS = {"Money": Money, "int": int, "str": str}
+_typing = __import__("typing")
+TYOBJ = {"t:int": int, "t:str": str, "t:float": float, "t:Money": Money,
+         "t:typing.ClassVar[dict]": _typing.ClassVar[dict]}
+
+
+def ty_obj(t):
+    return t[2:] if t.startswith("s:") else TYOBJ[t]
+
+
+def mk_dval(world, name, v):
+    if v[0] == "ca":
+        return world.cas[v[1]]
+    if v[0] == "anns":
+        return {n: ty_obj(t) for n, t in v[1]}      # a NESTED dict the caller owns too
+    return OWN_FUNCS[name]
 
 
 def canon_ty(x):
@@ -143,6 +189,8 @@ def canon_ty(x):
         return "t:" + x.__name__
     return "t:" + str(x)
 HOOKS = {n: _mk_hook(n) for n in ("h1", "h2")}
+HOOKS.update(ha1=EqCallable("a", "ha1", "hook"), ha2=EqCallable("a", "ha2", "hook"),
+             hb1=EqCallable("b", "hb1", "hook"))
 HOOKS["convert"] = setters.convert
 HOOKS["validate"] = setters.validate
 
@@ -347,6 +395,8 @@ class World:
             if len(ek) > 2:
                 ckw["class_name"] = ek[2]
             kw["eq"] = attr.cmp_using(**ckw)
+        if a.get("type") is not None:
+            kw["type"] = ty_obj(a["type"])
         if a.get("field"):
             return attrs.field(**kw)
         return attr.ib(**kw)
@@ -441,7 +491,7 @@ def step(world, op):
     elif k == "newdict":
         d = {}
         for name, v in op[1]:
-            d[name] = world.cas[v[1]] if v[0] == "ca" else OWN_FUNCS[name]
+            d[name] = mk_dval(world, name, v)
         world.dicts.append(d)
     elif k == "lappend":
         world.lists[op[1]].append((VALS | CONVS | HOOKS)[op[2]])
@@ -455,7 +505,7 @@ def step(world, op):
         world.cas[op[1]].validator(VALS[op[2]])
     elif k == "dset":
         name, v = op[2]
-        world.dicts[op[1]][name] = world.cas[v[1]] if v[0] == "ca" else OWN_FUNCS[name]
+        world.dicts[op[1]][name] = mk_dval(world, name, v)
     elif k == "ddel":
         world.dicts[op[1]].pop(op[2], None)
     elif k == "cop":
@@ -688,6 +738,8 @@ def containers(world):
             return ["ca", ca_idx[id(v)]]
         if v is OWN_FUNCS.get(name):
             return ["fn"]
+        if isinstance(v, dict):
+            return ["anns", sorted([k, canon_ty(t)] for k, t in v.items())]     # compared deeply
         return ["?"]
     owners = {}
     shared = False
@@ -779,10 +831,10 @@ def enc_meta(m):
 
 def enc_attrib(a):
     ek = a.get("eqk")
-    return "(A %s %s %s %s %s %s %s %s)" % (
+    return "(A %s %s %s %s %s %s %s %s %s)" % (
         b(bool(a.get("d"))), enc_seq(a.get("v")), enc_seq(a.get("c")), enc_hookarg(a.get("h")),
         b(bool(a.get("kw"))), b(a.get("init") is not False), enc_meta(a.get("m")),
-        "EKNone" if ek is None else "(EKCmp %s %s)" % (q(ek[0]), b(ek[1])))
+        "EKNone" if ek is None else "(EKCmp %s %s)" % (q(ek[0]), b(ek[1])), enc_oty(a.get("type")))
 
 
 def enc_corehook(s):
@@ -796,7 +848,7 @@ def enc_osarg(a):
         return "(OsaVal COsNoOp)"
     if a[0] == "one":
         return "(OsaVal (COsSingle %s))" % enc_corehook(a[1])
-    if a[0] == "lit":
+    if a[0] in ("lit", "tup"):
         return "(OsaVal (COsPipe %s))" % lst(enc_corehook(s) for s in a[1])
     return "(OsaList %d)" % a[1]
 
@@ -861,6 +913,8 @@ def enc_body(spec):
 
 
 def enc_dval(v):
+    if v[0] == "anns":
+        return "(DAnns %s)" % lst("(%s, %s)" % (q(n), enc_ty(t)) for n, t in v[1])
     return "(DCa %d)" % v[1] if v[0] == "ca" else "DFn"
 
 
@@ -1039,6 +1093,14 @@ BODIES = {
     "eq_any_named": _body([_f("x", eqk=["e1", False, "K2"]), _f("y", d=True, eqk=["e2", True, "K2"])]),
     "eq_same_conv": _body([_f("x", eqk=["e1", True], c=["one", "c1"]), _f("y", d=True, eqk=["e2", False])]),
     "eq_same_fb": _body([_f("x", d=True, eqk=["e2", True])], base="frozen"),
+    # type= (also clashing with an annotation) and callable OBJECTS with value equality
+    "type_arg": _body([_f("x", type="t:int"), _f("y", d=True, type="s:Money")]),
+    "type_clash": _body([_f("x", ann=True, type="t:str")]),
+    "eq_objs_1": _body([_f("x", v=["lit", ["va1", "v1"]], c=["lit", ["ca1"]], h=["lit", ["ha1", "validate"]]),
+                        _f("y", d=True, h=["tup", ["ha1"]])]),
+    "eq_objs_2": _body([_f("x", v=["lit", ["va2", "v1"]], c=["lit", ["ca2"]], h=["lit", ["ha2", "validate"]]),
+                        _f("y", d=True, h=["tup", ["ha2"]])]),
+    "eq_objs_b": _body([_f("x", v=["one", "va2"], c=["one", "ca2"], h=["lit", ["hb1", "validate"]])]),
     "tuple_args": _body([_f("x", v=["tup", ["v1", "v2"]], c=["tup", ["c2", "c1"]], h=["tup", ["convert", "h1"]])]),
 }
 
@@ -1065,6 +1127,9 @@ DECOS = {
     "define_convert": ("define", {"on_setattr": ["one", "convert"]}),
     "frozen_dict_ad": ("frozen", {"slots": False}),
     "s_invalid": ("s", {"eq": False, "order": True}),
+    "s_hooks_a1": ("s", {"on_setattr": ["lit", ["ha1", "validate"]]}),
+    "s_hooks_a2": ("s", {"on_setattr": ["lit", ["ha2", "validate"]]}),
+    "mutable_hooks_a2": ("mutable", {"on_setattr": ["tup", ["ha2", "validate"]]}),
 }
 
 CORE_BODIES = ["plain_ib", "plain_ann", "mixed_unann", "own_hash", "own_eq", "own_setattr_v",
@@ -1120,8 +1185,10 @@ def these_cases(rng, thorough):
 
 def make_class_cases(rng, thorough):
     out = []
-    cas = [["attrib", {"v": ["one", "v1"]}], ["attrib", {"d": True, "c": ["one", "c1"]}],
-           ["attrib", {"d": True}]]
+    cas = [["attrib", {"v": ["one", "v1"], "type": "t:int"}], ["attrib", {"d": True, "c": ["one", "c1"]}],
+           ["attrib", {"d": True, "type": "s:Money"}]]
+    ann_sets = [None, None, [["registry", "t:typing.ClassVar[dict]"]],
+                [["registry", "t:typing.ClassVar[dict]"], ["y", "t:str"]], [["z", "t:float"]]]
     kws = [{}, {"frozen": True}, {"auto_detect": True}, {"kw_only": True}, {"slots": True},
            {"on_setattr": ["lit", ["convert", "validate"]]}, {"auto_detect": True, "frozen": True},
            {"unsafe_hash": True}, {"eq": False, "order": True}]
@@ -1142,7 +1209,9 @@ def make_class_cases(rng, thorough):
             ops = cas + [["newdict", items]]
             bid = None
             if body is not None:
-                ops.append(["newdict", [[n, ["fn"]] for n in body]])
+                anns = rng.choice(ann_sets)
+                ops.append(["newdict", [[n, ["fn"]] for n in body] +
+                            ([["__annotations__", ["anns", anns]]] if anns is not None else [])])
                 bid = 1
             n_defs = rng.choice([2, 2, 3])
             for i in range(n_defs):
@@ -1157,6 +1226,9 @@ def make_class_cases(rng, thorough):
                 else:
                     ops = ops + [["make_class", 0, bid if rng.random() < 0.8 else None,
                                   rng.choice(kws), rng.choice(bases)]]
+                if rng.random() < 0.35:
+                    nd_now = sum(1 for o in ops if o[0] in DEF_OPS)
+                    ops = ops + [["cop", rng.randrange(nd_now), rng.choice(COP_KINDS)]]
             out.append(mk_case(ops, scenario="make_class"))
     return out
 
@@ -1378,6 +1450,41 @@ def cmp_using_cases(rng, thorough):
     return out
 
 
+def equal_callable_cases(rng, thorough):
+    """Hook / validator / converter lists and tuples (class- and field-level) whose members are
+    callable OBJECTS that compare equal but are distinct: each class must run ITS OWN objects."""
+    out = []
+    bodies = ["eq_objs_1", "eq_objs_2", "eq_objs_b", "plain_ib", "conv_val"]
+    # field-level: one decorator, equal-but-distinct objects in the bodies
+    for d in ["s", "define", "define_dict", "mutable_hooks", "s_validate", "s_hooks_a1"]:
+        for h in itertools.permutations(bodies, 2):
+            out.append(shared_deco_case(d, list(h)))
+            out[-1].sig["scenario"] = "equal-callables"
+    # class-level: two decorator objects / make_class calls whose on_setattr lists are equal-but-distinct
+    level = [("s", {"on_setattr": ["lit", ["ha1", "validate"]]}), ("s", {"on_setattr": ["lit", ["ha2", "validate"]]}),
+             ("mutable", {"on_setattr": ["tup", ["ha2", "validate"]]}), ("define", {"on_setattr": ["lit", ["ha1"]]}),
+             ("mutable", {"on_setattr": ["lit", ["ha2"]]}), ("s", {"on_setattr": ["one", "ha1"]}),
+             ("s", {"on_setattr": ["one", "ha2"]}), ("mutable", {"on_setattr": ["lit", ["hb1", "validate"]]})]
+    pairs = list(itertools.permutations(level, 2))
+    if not thorough:
+        pairs = rng.sample(pairs, 30)
+    for d0, d1 in pairs:
+        for a, bb in ([("plain_ib", "plain_ib"), ("conv_val", "plain_ann"), ("eq_objs_1", "eq_objs_2")]
+                      if thorough else [rng.choice([("plain_ib", "plain_ib"), ("conv_val", "plain_ann")])]):
+            ops = [["deco"] + list(d0), ["deco"] + list(d1), ["apply", 0, BODIES[a]], ["apply", 1, BODIES[bb]]]
+            if rng.random() < 0.4:
+                ops.append(["apply", 0, BODIES[bb]])
+            out.append(mk_case(ops, scenario="equal-callables"))
+    # make_class(**kwargs) with equal-but-distinct hook lists
+    cas = [["attrib", {"d": True, "v": ["one", "v1"]}], ["newdict", [["x", ["ca", 0]]]]]
+    for (k0, a0), (k1, a1) in (pairs if thorough else pairs[:12]):
+        if k0 != "s" or k1 != "s":
+            continue
+        out.append(mk_case(cas + [["make_class", 0, None, a0, "obj"], ["make_class", 0, None, a1, "obj"]],
+                           scenario="equal-callables"))
+    return out
+
+
 _PAIR_MEMO = {}
 
 
@@ -1413,6 +1520,7 @@ def generate(tier, seed):
     cases += shared_converter_cases(rng, thorough)
     cases += class_op_cases(rng, thorough)
     cases += cmp_using_cases(rng, thorough)
+    cases += equal_callable_cases(rng, thorough)
     return cases
 
 
